@@ -35,11 +35,8 @@ def checkTreeOp : Handler := fun j => do
   | some t => pure (jObj [("complete", jBool true), ("tree", jTree t)])
   | none => pure (jObj [("complete", jBool false)])
 
-/-- sub-optimizer stand-in for merges of three or more items: a left caterpillar. The harness
-    compares model and implementation only where no such merge happens. -/
-def caterpillar : List BT → BT
-  | [] => .leaf 0
-  | x :: rest => rest.foldl (fun acc y => .node acc y) x
+-- sub-optimizer stand-in for merges of three or more items: `Path.caterpillar`. The harness
+-- compares model and implementation only where no such merge happens.
 
 /-- op `c05.from_path`: `ContractionTree.from_path` (linear or ssa) -/
 def fromPathOp : Handler := fun j => do
